@@ -96,7 +96,7 @@ func TestVerifC10Merkle(t *testing.T) {
 			leaf := append([]byte{}, items[i]...)
 			rh := append([]byte{}, rootHash...)
 			kind := ""
-			switch r.Intn(25) {
+			switch r.Intn(28) {
 			case 0:
 				kind = "genuine"
 			case 1:
@@ -227,6 +227,19 @@ func TestVerifC10Merkle(t *testing.T) {
 				default:
 					p.Total = 0
 				}
+			case 25, 26:
+				// the same path claimed for a tree whose size differs in the high-order bits only
+				// (the split points must come from the whole 64-bit size)
+				kind = "total-wide"
+				w := []int64{1 << 32, 2 << 32, 3 << 32, 1 << 31, 1 << 33, 1 << 40, 1 << 52, 1 << 62}[r.Intn(8)]
+				p.Total += w
+				if r.Chance(25) {
+					p.Index += w
+					kind = "index+total-wide"
+				}
+			case 27:
+				kind = "index-wide" // the index restated modulo 2^32
+				p.Index += []int64{1 << 32, 2 << 32, 1 << 31, 1 << 40}[r.Intn(4)]
 			case 18:
 				kind = "index+total-shift" // same path claimed for a bigger tree
 				p.Total *= 2
